@@ -257,3 +257,13 @@ def finish(total, tier, seed):
                 depth_unpruned=DEPTH[tier], depth_pruned=DMAX[tier],
                 configurations=sorted(_CFG), deviation_bound_completed=DEPTH[tier] - 1,
                 alphabet_sizes={k: len(v[1]) for k, v in _CFG.items()})
+
+MANIFEST = dict(
+    text="Explicit-state exploration of the real ExpressionSolver instance: every sequence of solve() calls (valid and "
+         "failing at every stage/token position) up to depth 3 (quick) / 4 (thorough) in 5 configurations is executed "
+         "on one shared instance and every transition is compared with a fresh instance; then pruned BFS to depth 6/8. "
+         "Coverage statement: no history within the bound changes a later outcome.",
+    note="Alphabet of ~15-28 calls per configuration; trusted: Python semantics, outcome canonicalisation (float bits, "
+         "exception type+message). Histories beyond the depth bound rely on the small-scope hypothesis.",
+    technique="explicit-state BFS over call/fault histories on the real object, differential oracle vs fresh instance",
+)
